@@ -528,7 +528,7 @@ impl Prop for C03 {
             p_thin_walls: 0.6,
             big_radius: true,
             budget_scale: 0.7,
-            p_nonconvex: 0.25,
+            p_nonconvex: 0.4,
             p_prm_requery: 0.4,
             ..Default::default()
         };
@@ -700,6 +700,7 @@ impl Prop for C05 {
             max_obst: 2,
             p_nonconvex: 0.25,
             p_prm_requery: 0.4,
+            p_so3_signflip: 0.15,
             big_radius: ch.prob(0.5),
             ..Default::default()
         };
